@@ -411,6 +411,12 @@ def check_exp(script, replies, n):
     if kind == "pred":
         r = exp[1](got, replies)
         return None if r is None else (exp[2] + (": " + r if isinstance(r, str) else ""), got)
+    if kind == "rel":
+        other = replies[exp[1]]
+        if other in ("-", "poisoned"):
+            return None
+        r = exp[2](got, other)
+        return None if r is None else ("%s (line %d: %s)" % (exp[3], exp[1], other), got)
     if kind == "same":
         other = replies[exp[1]]
         if other == "-":
